@@ -2211,7 +2211,13 @@ fn main() {
             let ty = line.split(' ').nth(2).unwrap_or("");
             let n0 = line.split(' ').nth(3) == Some("0");
             // known findings (see /verif/known_findings.txt): precise class + type + symptom
-            let kf = if class == "kernel" && kname == "cast" && ty == "dnv_u32_bin" && (f.contains("cast:Utf8View:strict[") || f.contains("cast:Dictionary(UInt16, Utf8):strict[")) && f.contains("=ERR but [plain]=") && !f.contains("[plain]=ERR") {
+            // strict cast of a binary dictionary to a string view / string dictionary: Err on one side only
+            let strict_target = f.contains("cast:Utf8View:strict[") || f.contains("cast:Dictionary(UInt16, Utf8):strict[");
+            let one_sided_err = (class == "kernel" && f.contains("=ERR but [plain]=") && !f.contains("[plain]=ERR"))
+                || (class == "commute-slice" && f.contains("k(slice)=ERR") && !f.contains("slice(k)=ERR"))
+                || (class == "commute-take" && f.contains("k(take)=ERR") && !f.contains("take(k)=ERR"))
+                || (class == "commute-concat" && f.contains("k(concat)=ERR") && !f.contains("concat(k)=ERR"));
+            let kf = if kname == "cast" && ty == "dnv_u32_bin" && strict_target && one_sided_err {
                 " kf:dict-binary-strict-cast-unreferenced"
             } else if class == "kernel" && kname.starts_with("substring") && (ty == "utf8" || ty == "lutf8") && f.contains("=ERR but [plain]=") && !f.contains("[plain]=ERR") {
                 " kf:substring-null-payload"
